@@ -1009,3 +1009,151 @@ Proof. vm_compute. reflexivity. Qed.
 
 Example attr_position_example : attr_position c_quot [60; 97; 32; 104; 114; 101; 102; 61; 34].
 Proof. vm_compute. reflexivity. Qed.
+
+From Coq Require Import ZifyBool.
+
+(* ================================================================ urllib.parse.quote, script_url, base_url *)
+
+(* a unicode scalar value: what a Python str holds unless it contains lone surrogates *)
+Definition scalar (c : Z) : Prop := 0 <= c < 55296 \/ 57343 < c < 1114112.
+
+Lemma utf8_total c : scalar c -> utf8 c <> None.
+Proof.
+  unfold scalar, utf8. intros H.
+  destruct (c <? 0) eqn:E0; [lia|].
+  destruct (c <? 128) eqn:E1; [discriminate|].
+  destruct (c <? 2048) eqn:E2; [discriminate|].
+  destruct ((55296 <=? c) && (c <=? 57343)) eqn:E3; [lia|].
+  destruct (c <? 65536) eqn:E4; [discriminate|].
+  destruct (c <? 1114112) eqn:E5; [discriminate|lia].
+Qed.
+
+Lemma quote_total s : (forall c, In c s -> scalar c) -> quote s <> None.
+Proof.
+  induction s as [|c r IH]; intros H; cbn [quote]; [discriminate|].
+  pose proof (utf8_total c (H c (or_introl eq_refl))) as Hc.
+  destruct (utf8 c); [|contradiction].
+  assert (Hr : quote r <> None) by (apply IH; intros x Hx; apply H; right; exact Hx).
+  destruct (quote r); [discriminate|contradiction].
+Qed.
+
+(* the characters quote can emit: the safe set and the percent sign *)
+Definition url_char (c : Z) : Prop := quote_safe c = true \/ c = 37.
+
+Lemma hexdigit_safe d : 0 <= d < 16 -> quote_safe (hexdigit d) = true.
+Proof. unfold hexdigit, quote_safe. intros H. destruct (d <? 10) eqn:E; lia. Qed.
+
+Lemma quote_byte_chars b c : In c (quote_byte b) -> url_char c.
+Proof.
+  unfold quote_byte, url_char. destruct (quote_safe b) eqn:E; cbn [In].
+  - intros [H|[]]. subst c. left. exact E.
+  - intros [H|[H|[H|[]]]]; subst c.
+    + right. reflexivity.
+    + left. apply hexdigit_safe. apply Z.mod_pos_bound. lia.
+    + left. apply hexdigit_safe. apply Z.mod_pos_bound. lia.
+Qed.
+
+Lemma quote_chars : forall s q, quote s = Some q -> forall c, In c q -> url_char c.
+Proof.
+  induction s as [|x r IH]; cbn [quote]; intros q Hq c Hc.
+  - inversion Hq. subst q. contradiction.
+  - destruct (utf8 x) as [bs|]; [|discriminate]. destruct (quote r) as [q'|]; [|discriminate].
+    inversion Hq. subst q. apply in_app_or in Hc. destruct Hc as [Hc|Hc].
+    + apply in_flat_map in Hc. destruct Hc as [b [_ Hb]]. exact (quote_byte_chars b c Hb).
+    + exact (IH q' eq_refl c Hc).
+Qed.
+
+Lemma url_char_no_markup c : url_char c -> c <> c_lt /\ c <> c_gt /\ c <> c_quot /\ c <> c_apos /\ c <> c_amp.
+Proof. unfold url_char, quote_safe, c_lt, c_gt, c_quot, c_apos, c_amp. intros [H|H]; lia. Qed.
+
+Lemma quote_markup_free s q : quote s = Some q -> markup_free q.
+Proof.
+  intros Hq c Hc. pose proof (url_char_no_markup c (quote_chars s q Hq c Hc)) as H. tauto.
+Qed.
+
+Lemma markup_free_app a b : markup_free a -> markup_free b -> markup_free (a ++ b).
+Proof. intros Ha Hb c Hc. apply in_app_or in Hc. destruct Hc; auto. Qed.
+
+(* Request.base_url: whatever Host / X-Forwarded-* / SCRIPT_NAME / PATH_INFO are, the value contains no < > and no quote *)
+Lemma base_url_markup_free e sn p u : base_url e sn p = Some u -> markup_free u.
+Proof.
+  unfold base_url. destruct (host_url e) as [hu|]; [|discriminate].
+  destruct (quote (rstrip_c 47 (opt_default [] sn))) as [q1|] eqn:E1; [|discriminate].
+  destruct (quote (opt_default [] p)) as [q2|] eqn:E2; [|discriminate].
+  intros H. inversion H. subst u.
+  apply markup_free_app; [apply escape_html_markup_free|].
+  apply markup_free_app; eapply quote_markup_free; eassumption.
+Qed.
+
+Lemma lstrip_c_incl ch s c : In c (lstrip_c ch s) -> In c s.
+Proof.
+  induction s as [|x r IH]; cbn [lstrip_c]; [auto|].
+  destruct (x =? ch); intros H; [right; auto|exact H].
+Qed.
+
+Lemma rstrip_c_incl ch s c : In c (rstrip_c ch s) -> In c s.
+Proof. unfold rstrip_c. intros H. apply in_rev in H. apply lstrip_c_incl in H. apply in_rev in H. exact H. Qed.
+
+(* never raises: for environ text without lone surrogates (PEP 3333: environ strings are latin-1 decoded bytes) *)
+Lemma script_url_total e sn : (forall s c, sn = Some s -> In c s -> scalar c) -> script_url e sn <> None.
+Proof.
+  intros H. unfold script_url. pose proof (host_url_total e) as Hh. destruct (host_url e); [|contradiction].
+  assert (Hq : quote (rstrip_c 47 (opt_default [47] sn)) <> None).
+  { apply quote_total. intros c Hc. apply rstrip_c_incl in Hc. destruct sn as [s0|]; cbn [opt_default] in Hc.
+    - exact (H s0 c eq_refl Hc).
+    - destruct Hc as [Hc|[]]. subst c. left. lia. }
+  destruct (quote _); [discriminate|contradiction].
+Qed.
+
+Lemma base_url_total e sn p :
+  (forall s c, sn = Some s -> In c s -> scalar c) -> (forall s c, p = Some s -> In c s -> scalar c) -> base_url e sn p <> None.
+Proof.
+  intros H1 H2. unfold base_url. pose proof (host_url_total e) as Hh. destruct (host_url e); [|contradiction].
+  assert (Hq1 : quote (rstrip_c 47 (opt_default [] sn)) <> None).
+  { apply quote_total. intros c Hc. apply rstrip_c_incl in Hc. destruct sn as [s0|]; cbn [opt_default] in Hc; [exact (H1 s0 c eq_refl Hc)|contradiction]. }
+  assert (Hq2 : quote (opt_default [] p) <> None).
+  { apply quote_total. intros c Hc. destruct p as [s0|]; cbn [opt_default] in Hc; [exact (H2 s0 c eq_refl Hc)|contradiction]. }
+  destruct (quote (rstrip_c 47 (opt_default [] sn))); [|contradiction].
+  destruct (quote (opt_default [] p)); [discriminate|contradiction].
+Qed.
+
+(* capabilities documents (fill segs base_url): the token structure is the same for any two requests *)
+Lemma fill_base_url_shape segs e1 sn1 p1 u1 e2 sn2 p2 u2 :
+  base_url e1 sn1 p1 = Some u1 -> base_url e2 sn2 p2 = Some u2 ->
+  shape (tokenize (fill segs u1)) = shape (tokenize (fill segs u2)).
+Proof.
+  intros H1 H2. apply tokenize_fill_shape; eapply base_url_markup_free; eassumption.
+Qed.
+
+(* the welcome page as MapProxyApp.__call__ builds it: welcome_response(escape_html(req.script_url)) *)
+Lemma welcome_root_structure version :
+  (forall c, In c version -> c <> c_lt) ->
+  exists tp pre t ts, (forall s, t <> Text s) /\
+    forall e sn u, script_url e sn = Some u ->
+      tokenize (welcome_page version true u) = tp ++ tok_add (pre ++ escape_html u) t :: ts.
+Proof.
+  intros Hv. destruct (welcome_page_structure version Hv) as [tp [pre [t [ts [Ht H]]]]].
+  exists tp, pre, t, ts. split; [exact Ht|]. intros e sn u _. apply H.
+Qed.
+
+(* /pre"fix<b>/ with http://h"x/  *)
+Example script_url_example :
+  script_url {| x_fwd_host := None; http_host := Some [104; 34; 120]; x_fwd_proto := None; wsgi_scheme := s_http;
+                server_name := []; server_port := [] |} (Some [47; 112; 34; 60; 233; 47])
+  = Some [104; 116; 116; 112; 58; 47; 47; 104; 34; 120; 47; 112; 37; 50; 50; 37; 51; 67; 37; 67; 51; 37; 65; 57].
+Proof. vm_compute. reflexivity. Qed.
+
+Example base_url_example :
+  base_url {| x_fwd_host := None; http_host := Some [104; 34; 120]; x_fwd_proto := None; wsgi_scheme := s_http;
+              server_name := []; server_port := [] |} None (Some [47; 60])
+  = Some [104; 116; 116; 112; 58; 47; 47; 104; 120; 47; 37; 51; 67].
+Proof. vm_compute. reflexivity. Qed.
+
+Example quote_surrogate_raises : quote [97; 55296] = None.
+Proof. vm_compute. reflexivity. Qed.
+
+Lemma quote_chars_no_markup s q : quote s = Some q -> forall c, In c q ->
+  (quote_safe c = true \/ c = 37) /\ c <> c_lt /\ c <> c_gt /\ c <> c_quot /\ c <> c_apos /\ c <> c_amp.
+Proof.
+  intros Hq c Hc. pose proof (quote_chars s q Hq c Hc) as H. split; [exact H|]. exact (url_char_no_markup c H).
+Qed.
